@@ -48,3 +48,86 @@ PROPS["C13"] = {
 
 conv_prop("C12", ["c12", "tls"], "c12: the property's complete configuration space (5 extension flags x size limit {0,1000} x recipient limit {0,2} x TLS {none, available, active = real implicit TLS} x AllowInsecureAuth x backend {auth-capable, not} x {SMTP, LMTP} = 3072 configurations; thorough: all, quick: every 4th plus the all-off/all-on rows) x EHLO/LHLO capability list, HELO reply, and a probe of every extension's parameter or command (SMTPUTF8, REQUIRETLS, BODY=BINARYMIME/8BITMIME, RET, ENVID, SIZE at and above the limit, NOTIFY, ORCPT, RRVS, recipients beyond RCPTMAX, AUTH, STARTTLS). Oracle: capability lines and reply codes computed by the generator from the property text.")
 PROPS["C12"]["trusted_base"] = CONV_TB + TLS_TB
+
+PROPS["C20"] = {
+    "kinds": ["life"],
+    "rule": "life: the REAL smtp.Server driven by a scripted net.Listener (connection / temporary net.Error / permanent error per Accept) and scripted Close / Shutdown(ctx) / peer-disconnect / ctx-expiry events; every op sequence over the 8-letter alphabet up to length 3 (thorough: 4), seeded random scripts of length 4-9, and the back-off cap (10 temporary errors: 5..640,1000,1000 ms). Recorded: what Serve/Close/Shutdown returned, which connections the server closed, the measured back-off delays. Compared with ServerLife.v (CheckLife.check_life) and judged against the property text on the recorded behaviour alone (monitor mon_step/mon_final). The data-race half is not case based: tools/accesses regenerates coq/gen/Accesses.v from /repo and LocksetInst.conn_races_exactly is re-proved by vm_compute on every run.",
+    "trusted_base": [
+        "tools/accesses (syntactic go/ast translator: field accesses, c.locker regions, calls, go literals, joins); it exits non-zero on any construct it cannot classify",
+        "flattening of control flow: a function body is the sequence of ALL its accesses in source order (every branch, loop bodies once, deferred calls last); every real path's accesses are a subsequence with the same lock status",
+        "the interleaving semantics of Lockset.v / Interleave.v as an abstraction of Go's scheduler and memory model (a data race = two conflicting accesses simultaneously enabled in a sequentially consistent interleaving)",
+        "net.Conn, io.Pipe ends, channels, sync.Mutex / WaitGroup are race free themselves; a call ON such an object is a read of the field holding it; objects reached through a field (bufio.Reader, lineLimitReader, dataReader) are covered only through that field",
+        "Interleave.v is a hand-written model of handleBdat's goroutine protocol (not tied by generated cases); ServerLife.v is tied by the life cases",
+    ],
+    "assumptions": [
+        "Session.Data / LMTPData return once their reader has failed (documented contract): built into Interleave.v's DFailed state",
+        "the exported *Conn methods are the only entry points other goroutines use (Server.Close -> Conn.Close; a backend that kept the *Conn)",
+        "Close and Shutdown are atomic in ServerLife.v: two CONCURRENT calls are outside the model (DESIGN F21)",
+        "runtime panics (nil dereference etc.) are outside the models",
+    ],
+}
+
+
+def _c20_race_scenarios(tier, seed, work, sh):
+    """Forced-schedule scenarios of harness/race_test.go under the race detector
+    (runtime support of C20, not the proof).  A reported data race whose two
+    go-smtp functions are a pair of LocksetInst.known_races is a known finding;
+    any other race, a hang (watchdog), a goroutine leak or a wrong reply is a violation."""
+    import os, re
+    verif = os.environ.get("VERIF_ROOT") or os.path.dirname(os.path.dirname(os.path.abspath(__file__)))
+    src = open(os.path.join(verif, "coq/theories/LocksetInst.v")).read()
+    m = re.search(r"Definition known_races[^:]*:[^=]*:=\s*\[(.*?)\]\.", src, re.S)
+    known = set()
+    if m:
+        for f, a, b in re.findall(r'\("([^"]+)",\s*"([^"]+)",\s*"([^"]+)"\)', m.group(1)):
+            known.add(frozenset((a, b)))
+    count = 1 if tier == "quick" else 15
+    rc, out = sh("go test -race -tags verif -run Scenario -count=%d -v . 2>&1" % count,
+                 cwd=verif + "/harness", timeout=3000)
+    res = {"cases": 0, "kf": {}, "violations": [], "samples": []}
+    if "--- PASS" not in out and "--- FAIL" not in out:
+        res["failed"] = "go test -race did not run: " + out[-600:]
+        res["summary"] = "not run"
+        return res
+    # split into per-test chunks
+    chunks = re.split(r"(?m)^=== RUN\s+", out)
+    npass = nfail = nknown = 0
+    obs = re.findall(r"OBSERVATION [^\n]*", out)
+    for ch in chunks[1:]:
+        name = ch.split("\n", 1)[0].strip()
+        res["cases"] += 1
+        races = re.split(r"WARNING: DATA RACE", ch)[1:]
+        unknown = []
+        for r in races:
+            r = r.split("==================")[0]
+            # first go-smtp frame of each of the two accesses
+            parts = re.split(r"(?m)^Previous (?:read|write) at", r)
+            fns = []
+            for p in parts[:2]:
+                fm = re.search(r"go-smtp\.\(\*(?:Conn|Server)\)\.(\w+)(?:\.func\d+)?\(\)\s*\n\s*(\S+:\d+)", p)
+                fns.append((fm.group(1), fm.group(2)) if fm else ("?", "?"))
+            pair = frozenset(f for f, _ in fns)
+            if len(fns) == 2 and pair in known:
+                key = "F20:" + "~".join(sorted(pair))
+                res["kf"][key] = res["kf"].get(key, 0) + 1
+                nknown += 1
+            else:
+                unknown.append({"kind": "race-scenario", "case": "%s: DATA RACE %s" % (name, fns), "report": r[:1500]})
+        failed = re.search(r"--- FAIL: " + re.escape(name) + r"\b", ch) is not None
+        other = [l for l in re.findall(r"(?m)^\s+\S+\.go:\d+: (.*)$", ch)
+                 if "race detected during execution" not in l and not l.startswith("OBSERVATION")]
+        if unknown:
+            res["violations"] += unknown[:2]
+        if failed and other:
+            res["violations"].append({"kind": "race-scenario", "case": "%s: %s" % (name, other[0][:400])})
+        if failed and not unknown and not other and not races:
+            res["violations"].append({"kind": "race-scenario", "case": "%s failed: %s" % (name, ch[-400:])})
+        if failed: nfail += 1
+        else: npass += 1
+    res["summary"] = {"scenarios": res["cases"], "passed": npass, "failed": nfail,
+                      "known_race_reports": nknown, "known_pairs_seen": sorted(res["kf"]),
+                      "observations": obs[:4]}
+    res["samples"] = ["go test -race -run Scenario: %d scenario runs, %d race reports all on known pairs" % (res["cases"], nknown)]
+    return res
+
+PROPS["C20"]["extra"] = [("race_scenarios", _c20_race_scenarios)]
